@@ -51,14 +51,21 @@ def main():
         print(json.dumps(rec, indent=1))
         if ok:
             dst = os.path.join(VERIF, "seeded", name)
-            if os.path.exists(dst):
-                shutil.rmtree(dst)
-            shutil.copytree(out_dir, dst, ignore=shutil.ignore_patterns("demo_bin", "demo", "a.out", "*.o"))
+            if os.path.abspath(out_dir) != os.path.abspath(dst):
+                if os.path.exists(dst):
+                    shutil.rmtree(dst)
+                shutil.copytree(out_dir, dst, ignore=shutil.ignore_patterns("demo_bin", "demo", "a.out", "*.o"))
             meta = json.load(open(os.path.join(dst, "meta.json")))
             meta["confirmed_by_coordinator"] = rec
             meta["what_was_run"] = ["sh _out/run_demo.sh on unchanged HEAD (exit 0)", "git apply patch.diff; cmake RelWithDebInfo build; ctest (82/82)",
                                     "sh _out/run_demo.sh with the change (exit %d)" % rc1]
             json.dump(meta, open(os.path.join(dst, "meta.json"), "w"), indent=1)
+        elif os.path.abspath(out_dir) == os.path.abspath(os.path.join(VERIF, "seeded", name)):
+            # re-confirmation of a stored seed failed on this HEAD: record it (the seed is kept; RESULTS will show it)
+            mp = os.path.join(out_dir, "meta.json")
+            meta = json.load(open(mp))
+            meta["reconfirmation_failed"] = rec
+            json.dump(meta, open(mp, "w"), indent=1)
     finally:
         sh("git -C %s worktree remove --force %s" % (REPO, wt))
         shutil.rmtree(wt, ignore_errors=True)
